@@ -57,6 +57,8 @@ class Exec:
         self.viol = []
         self.stats = {}
         self.log = []
+        self._shared = {}
+        self._dups = {}
 
     # ------------------------------------------------------------ arguments
     def build_arg(self, arg):
@@ -96,6 +98,8 @@ class Exec:
                 names += self.names_in(op[key])
         for item in op.get('items', ()):
             names += self.names_in(item)
+        for item in op.get('more_args') or ():
+            names += self.names_in(item)
         for key in ('remains', 'starts', 'ends'):
             names += op.get(key, [])
         if any(n not in self.objs for n in names):
@@ -117,7 +121,7 @@ class Exec:
             if kind in ('job', 'sched'):
                 req[name] = {j.nid for j in obj.required}
             if kind in ('sched', 'pure'):
-                members[name] = {j.nid for j in obj.jobs}
+                members[name] = sorted(j.nid for j in obj.jobs)
         return req, members, seqs
 
     def sync(self):
@@ -125,6 +129,8 @@ class Exec:
         m = self.model
         m.req = {k: set(v) for k, v in req.items()}
         m.members = {k: set(v) for k, v in members.items()}
+        self._dups = {k: v for k, v in members.items()
+                      if len(v) != len(set(v))}
         m.seq = {k: list(v) for k, v in seqs.items()}
 
     def diff_state(self):
@@ -138,11 +144,11 @@ class Exec:
                         "gives {}".format(name, sorted(req[name]),
                                           sorted(m.req[name])))
         for name in sorted(members):
-            if members[name] != m.members[name]:
+            if members[name] != sorted(m.members[name]):
                 return ('members', name,
-                        "jobs of {} are {} but should be {}".format(
-                            name, sorted(members[name]),
-                            sorted(m.members[name])))
+                        "jobs of {} are {} but should be {} (each once)"
+                        .format(name, members[name],
+                                sorted(m.members[name])))
         for name in sorted(seqs):
             if seqs[name] != m.seq[name]:
                 return ('sequence', name,
@@ -151,8 +157,22 @@ class Exec:
         return None
 
     def bad(self, prop, clause, site, msg, idx):
+        if self._multi_owner():
+            # a job in two schedulers: outside the documented precondition
+            # (histories are generated without it; shrinking can create it)
+            self.stats['unjudged_job_in_two_schedulers'] = 1
+            return
         self.viol.append(Violation(prop, clause, site,
                                    "step {}: {}".format(idx, msg)))
+
+    def _multi_owner(self):
+        owner = {}
+        for name, obj in self.objs.items():
+            if self.model.kind.get(name) in ('sched', 'pure'):
+                for job in obj.jobs:
+                    if owner.setdefault(id(job), name) != name:
+                        return True
+        return False
 
     # ------------------------------------------------------------ run
     def run(self, prop):
@@ -229,7 +249,12 @@ class Exec:
         def lib():
             kw = {}
             if op['required'] is not None:
-                kw['required'] = self.build_arg(op['required'])
+                built = self.build_arg(op['required'])
+                if op.get('share_required') and isinstance(built, set):
+                    # the very same set object as the previous constructor
+                    key = repr(op['required'])
+                    built = self._shared.setdefault(key, built)
+                kw['required'] = built
             if op['scheduler'] is not None:
                 kw['scheduler'] = self.objs[op['scheduler']]
             self.objs[name] = SimJob(self.ctx, _jobspec(name, op['forever'],
@@ -326,17 +351,24 @@ class Exec:
 
     def do_requires(self, prop, idx, op):
         names = self.names_in(op['arg'])
+        for extra in op.get('more_args') or []:
+            names += self.names_in(extra)
         via_seq = any(self.model.kind[n] == 'seq' for n in names)
         site = ('remove' if op['remove'] else 'add') + \
             ('-via-sequence' if via_seq else '') + \
             ('-self' if op['job'] in names else '')
 
+        more = op.get('more_args') or []
+
         def lib():
-            self.objs[op['job']].requires(self.build_arg(op['arg']),
-                                          remove=op['remove'])
+            self.objs[op['job']].requires(
+                self.build_arg(op['arg']),
+                *[self.build_arg(a) for a in more], remove=op['remove'])
 
         def mod():
             self.model.requires(op['job'], op['arg'], remove=op['remove'])
+            for extra in more:
+                self.model.requires(op['job'], extra, remove=op['remove'])
         self._construct(prop, idx, op, lib, mod, 'requires', site)
 
     def do_add(self, prop, idx, op):
@@ -468,6 +500,18 @@ class Exec:
         obj = self.objs[sched]
         starts = [s for s in op['starts'] if s in m.members[sched]]
         self.stats['query_steps'] = self.stats.get('query_steps', 0) + 1
+        before = self.lib_state()
+        try:
+            self._do_query(idx, sched, obj, starts, m)
+        finally:
+            after = self.lib_state()
+            if after != before:
+                changed = [n for n in before[0] if before[0][n] != after[0][n]]
+                self.bad('C17', 'query-changes-the-graph', '-',
+                         "read-only queries on {} changed requirements of {} "
+                         "or membership".format(sched, changed), idx)
+
+    def _do_query(self, idx, sched, obj, starts, m):
         multi = 'multi-start' if len(starts) > 1 else 'single-start'
 
         def names(it):
@@ -715,7 +759,7 @@ class Exec:
 
     def _kept_requirements(self, sched, req_before, what, idx):
         req, members, _ = self.lib_state()
-        kept = members[sched]
+        kept = set(members[sched])
         for j in kept:
             want = req_before[j] & kept
             if req[j] != want:
